@@ -139,8 +139,46 @@ def mutate_in_place(rng, d, t, env):
     return False
 
 
+def untyped_and_empty_tables(ctx, g):
+    """EMPTINESS at the file level: tables as another writer may leave them -- a type name of length zero (with and without payload), a
+    payload of length zero under a known, an unknown and a malformed name, a key of length zero -- at IR and at module level.  None of
+    them is read: each is written back under its key with the very type name and the very bytes, also in a second generation."""
+    import protocheck
+    ir = g.IR()
+    g.Module(name="m", ir=ir)
+    p = protocheck.parse_body(protocheck.save_bytes(ir))
+    tables = {"untyped": ("", b"\x01\x02\x03"), "untyped-empty": ("", b""), "": ("uint8_t", b"\x07"), "empty-known": ("sequence<uint8_t>", b""),
+              "empty-unknown": ("vendor.custom", b""), "empty-malformed": ("mapping<", b""), "typed": ("string", (1).to_bytes(8, "little") + b"x")}
+    for cont in (p, p.modules[0]):
+        for k, (tn, raw) in tables.items():
+            cont.aux_data[k].type_name = tn
+            cont.aux_data[k].data = raw
+    f = protocheck.save_bytes(ir)[:8] + p.SerializeToString()
+    for gen in (1, 2):
+        try:
+            ir2 = protocheck.load_bytes(g, f)
+            f2 = protocheck.save_bytes(ir2)
+        except Exception as e:  # noqa: BLE001
+            ctx.add("oracle", "table-lost", "a file whose tables have empty type names / empty payloads / an empty key cannot be loaded and saved again untouched (generation %d): %s"
+                    % (gen, exc_name(g, e)), {"file": f.hex()})
+            return
+        p2 = protocheck.parse_body(f2)
+        for where, cont in (("IR", p2), ("module", p2.modules[0])):
+            for k, (tn, raw) in tables.items():
+                ctx.count("untyped_or_empty_tables_passed_through")
+                ctx.case("untyped-empty:%s:%s:%d" % (where, k, gen), True)
+                if k not in cont.aux_data:
+                    ctx.add("oracle", "table-lost", "%s-level table %r (type name %r, %d bytes), never read, is missing from the file written in generation %d" % (where, k, tn, len(raw), gen),
+                            {"file": f.hex(), "table": k})
+                elif cont.aux_data[k].type_name != tn or bytes(cont.aux_data[k].data) != raw:
+                    ctx.add("oracle", "stale-or-wrong-bytes", "%s-level table %r, never read, was written as (%r, %r), loaded as (%r, %r)" % (where, k, cont.aux_data[k].type_name, bytes(cont.aux_data[k].data), tn, raw),
+                            {"file": f.hex(), "table": k})
+        f = f2
+
+
 def run(ctx):
     g = gtirb_from_repo.load()
+    untyped_and_empty_tables(ctx, g)
     rng = ctx.rng
     IRm = gtirb_from_repo.msg("IR")
     n_irs = 60 if ctx.quick else 600
